@@ -173,3 +173,19 @@ prop("C12", "exploration",
           "thorough": {"checks": 50000, "shards": 16, "timeout": 2400}},
      ],
      ["faults are injected before execution only"])
+
+
+prop("C13", "fault_enumeration",
+     "property-based testing (rapid) over an enumerated cross product (entry point x wait state x which context x "
+     "cancel/deadline) against the simulated cluster under virtual time",
+     "Every combination of API entry point, confirmed wait state and context kind is generated with drawn shapes; the "
+     "call must have returned at the next quiescence point after the context ended (<= 100 virtual ms; for a call "
+     "inside a batch sharing an unanswered multi-request: once the others were failed over) with a context error.",
+     "Trusted: synctest quiescence as the definition of 'still blocked'; the state confirmation through the simulated "
+     "cluster. An unbatched call blocked inside net.Conn.Write cannot observe its context and is not generated.",
+     [
+         {"test": "TestC13_Cancellation", "quick": {"checks": 6000, "timeout": 300},
+          "thorough": {"checks": 60000, "shards": 16, "timeout": 2400}},
+     ],
+     ["'short bounded delay' is read as 100 ms of virtual time after the context ended",
+      "for a batch the statement only requires the call to be marked failed, not a particular error"])
